@@ -108,3 +108,21 @@ func BareDelegationCtx(ctx context.Context, claimed *protocol.Node, n int) conte
 func DelegationCtx(ctx context.Context, d *transport.StreamDelegate) context.Context {
 	return rpc.WithDelegation(ctx, d)
 }
+
+// NewClientWithSubject issues a CA-signed client certificate with an arbitrary
+// subject (e.g. one that is not a specter identity).
+func NewClientWithSubject(ca tls.Certificate, subj pkix.Name) *x509.Certificate {
+	pub, _, err := ed25519.GenerateKey(rand.Reader)
+	if err != nil {
+		panic(err)
+	}
+	der, err := pki.GenerateCertificate(zap.NewNop(), ca, pki.IdentityRequest{Subject: subj, PublicKey: pub})
+	if err != nil {
+		panic(err)
+	}
+	cert, err := x509.ParseCertificate(der)
+	if err != nil {
+		panic(err)
+	}
+	return cert
+}
